@@ -292,8 +292,12 @@ BAD_IDX_ONCE = ("1", "{}-x")  # applied to one occurrence (other malformed class
 
 
 def bad_names(n):
+    """(pattern, name): the pattern is part of the violation signature, so that a known finding about one way of
+    spelling a non-identifier does not cover another"""
     base = n.split(".")[-1]
-    return ["1" + n, n + "-x", n + " x", "", n + ".", "." + n, "s.t." + base, n + "!", "s.1" + base]
+    return [("digit-first", "1" + n), ("hyphen", n + "-x"), ("space", n + " x"), ("empty", ""), ("trailing-dot", n + "."),
+            ("leading-dot", "." + n), ("two-dots", "s.t." + base), ("bang", n + "!"), ("digit-first-after-scope", "s.1" + base),
+            ("digit-only-after-scope", n.split(".")[0] + ".1")]
 
 
 def _copy(spec):
@@ -315,10 +319,10 @@ def mutations(spec, only_names=False):
     if only_names:
         for side in sides:
             for k, (n, _) in enumerate(spec[side]):
-                for bad in bad_names(n):
+                for pat, bad in bad_names(n):
                     s = _copy(spec)
                     s[side][k][0] = bad
-                    add(s, "bad-array-name", where=side[:-1] + "put")
+                    add(s, "bad-array-name", where=side[:-1] + "put", pattern=pat)
         return res
 
     for o in range(nout):
@@ -373,10 +377,10 @@ def mutations(spec, only_names=False):
     # non-identifier names
     for side in sides:
         for k, (n, axes) in enumerate(spec[side]):
-            for bad in bad_names(n):
+            for pat, bad in bad_names(n):
                 s = _copy(spec)
                 s[side][k][0] = bad
-                add(s, "bad-array-name", where=side[:-1] + "put")
+                add(s, "bad-array-name", where=side[:-1] + "put", pattern=pat)
             if side == "outs" and k > 0:
                 continue
             for pos, ax in enumerate(axes):
@@ -447,6 +451,8 @@ def check_malformed(mut, via, op, extras, cls=None):
     sig = {"kind": "accepted-invalid", "cls": main, "only_class": len(cls) == 1, "via": via, "impl": _symptom(mut, m)}
     if main in ("colon-in-output", "nonident-array-name"):
         sig["where"] = extras.get("where")  # first-output / non-first-output / all-outputs; input / output
+    if main == "nonident-array-name":
+        sig["pattern"] = extras.get("pattern")
     shown = text_form if text_form is not None else f"MapSpec(direct: {render(mut)})"
     return ("accepted", sig, f"malformed ({'+'.join(cls)}) {shown!r} was accepted as {m!s}")
 
